@@ -142,6 +142,25 @@ func (c *Ctx) specCall(name string, e *ast.CallExpr) (Value, bool) {
 			return Scalar(Forall([]*Term{bv}, Implies(rng, b)), boolT), true
 		}
 		return Scalar(Exists([]*Term{bv}, And(rng, b)), boolT), true
+	case "forallOf", "existsOf":
+		// forallOf(TypeName, m, P): m ranges over all references, typed as TypeName
+		tn, ok1 := e.Args[0].(*ast.Ident)
+		id, ok2 := e.Args[1].(*ast.Ident)
+		if !ok1 || !ok2 {
+			panic(engineErr("%s(Type, var, P)", name))
+		}
+		o := c.pkg.P.Types.Scope().Lookup(tn.Name)
+		if o == nil {
+			panic(engineErr("%s: unknown type %s", name, tn.Name))
+		}
+		bvarSeq++
+		bv := BVar(fmt.Sprintf("%s!%d", id.Name, bvarSeq), SRef)
+		n := c.withVar(id.Name, Scalar(bv, o.Type()))
+		b := n.eval(e.Args[2]).S
+		if name == "forallOf" {
+			return Scalar(Forall([]*Term{bv}, b), boolT), true
+		}
+		return Scalar(Exists([]*Term{bv}, b), boolT), true
 	case "count":
 		id := e.Args[0].(*ast.Ident)
 		lo := c.eval(e.Args[1]).S
@@ -213,6 +232,12 @@ func (c *Ctx) specCall(name string, e *ast.CallExpr) (Value, bool) {
 			}
 		}
 		return Scalar(r, types.Typ[types.Int]), true
+	case "first":
+		v := c.eval(e.Args[0])
+		if v.Kind != KTuple {
+			panic(engineErr("first(...) of a non-tuple"))
+		}
+		return v.Elems[0], true
 	case "tzero":
 		return Scalar(timeZero(), nil), true
 	case "sametable":
